@@ -987,6 +987,26 @@ def force_optional_headers(g, ir):
             e["args"].append(irb.arg("verifOptHeader", t, "header", "Verif-Opt"))
 
 
+def force_map_bodies(g, ir):
+    """C09 labs: body arguments whose type is a map with a primitive key and safe values (an enum of the definition),
+    directly, keyed by bearer tokens, and nested in a list: not safe, whatever the values are."""
+    import ir as irb
+    enums = [d for d in g.types if d.kind == "enum"]
+    if not enums:
+        return
+    e_ref = enums[0].ref()
+    shapes = [irb.map_(irb.prim("STRING"), e_ref), irb.map_(irb.prim("BEARERTOKEN"), e_ref), irb.lst(irb.map_(irb.prim("STRING"), e_ref)),
+              irb.opt(irb.map_(irb.prim("INTEGER"), e_ref))]
+    k = 0
+    for s in ir["services"]:
+        for e in s["endpoints"]:
+            if e["httpMethod"] in ("POST", "PUT") and not any(a["paramType"]["type"] == "body" for a in e["args"]) and "verifmapbody" not in {a["argName"].lower() for a in e["args"]}:
+                e["args"].append(irb.arg("verifMapBody", shapes[k % len(shapes)], "body"))
+                k += 1
+                if k >= 6:
+                    return
+
+
 def services_stage(prop, tier, seed, replay):
     import wire
     from gen import LabGen, Profile
@@ -998,9 +1018,12 @@ def services_stage(prop, tier, seed, replay):
     for i in range(n):
         cs = rr.getrandbits(48)
         cfg = {"exhaustive": i % 2 == 1, "serialize_empty": rr.random() < 0.5, "strip": rr.choice([None, "com.verif", "com.verif.lab"])}
-        g = LabGen(cs, Profile(n_types=25, services=3, errors=0, hostile_names=True))
+        # C09 compares SafeParams with the log-safety model: most arguments are bodies typed by the definition's own types there
+        g = LabGen(cs, Profile(n_types=25, services=3, errors=0, hostile_names=True, body_bias=(prop == "C09")))
         ir = g.ir()
         force_optional_headers(g, ir)
+        if prop == "C09":
+            force_map_bodies(g, ir)
         labs.append((cs, cfg, g, ir))
         specs.append({"name": "svc%d" % i, "ir": ir, "cfg": cfg, "drive": True, "driver": lab.driver_source(ir, cfg, registry=False, services=True)})
     res = lab.build_labs("svc-%s" % tier, specs)
